@@ -55,6 +55,19 @@ theorem handles_count (st : Nat → St) (cs : List Nat) (rev : Bool) (i : Nat) :
   unfold handles
   exact (collect_spec cs st i).2
 
+/-- the handles come out in the order of the targets -/
+theorem collect_sublist (cs : List Nat) : ∀ st : Nat → St, List.Sublist (collect st cs).2 cs := by
+  induction cs with
+  | nil => intro st; simp [collect]
+  | cons c cs ih =>
+    intro st
+    unfold collect
+    by_cases hw : wakeable (st c) = true
+    · simp only [hw, if_true]
+      exact List.Sublist.cons_cons c (ih _)
+    · simp only [hw]
+      exact List.Sublist.cons c (ih _)
+
 @[simp] theorem jobIds_nil : jobIds [] = [] := rfl
 @[simp] theorem jobIds_snoc (js : List (List Nat × Bool)) (hs : List Nat) (k : Bool) :
     jobIds (js ++ [(hs, k)]) = jobIds js ++ hs := by simp [jobIds, List.flatMap_append]
